@@ -131,25 +131,73 @@ Proof.
 Qed.
 
 (* ---- counters only grow ---- *)
-Lemma P_mkC_lset ps nt dq i q j : P (mkC (lset ps i q) nt dq) j = if ((j =? i)%nat && (i <? length ps)%nat)%bool then q else nth j ps p0.
-Proof.
-  destruct (i <? length ps)%nat eqn:E.
-  - apply Nat.ltb_lt in E. rewrite P_lset by auto. rewrite andb_true_r. reflexivity.
-  - rewrite andb_false_r. unfold P. cbn [procs]. apply Nat.ltb_ge in E. unfold lset.
-    rewrite firstn_all2, skipn_all2 by lia.
-    destruct (Nat.lt_ge_cases j (length ps)); [rewrite app_nth1 by lia; auto|].
-    rewrite !nth_overflow; auto. rewrite app_length. cbn. lia.
-Qed.
-
 Lemma mstep_monotone c c' : mstep c c' -> forall j, sent (P c j) <= sent (P c' j) /\ recv (P c j) <= recv (P c' j).
 Proof.
-  intros Hm j. destruct Hm; unfold setp; rewrite ?P_mkC_lset; unfold NP in *; try (cbn [P procs]; lia).
-  all: repeat match goal with |- context[if ?b then _ else _] => destruct b eqn:? end;
-       repeat match goal with H : (_ && _)%bool = true |- _ => apply andb_true_iff in H; destruct H end;
+  intros Hm j. destruct Hm; rewrite ?P_setp by (rewrite ?NP_setp; auto); rewrite ?P_lset by (unfold NP in *; auto);
+    try (cbn [P procs]; lia).
+  all: repeat match goal with |- context[if (?a =? ?b)%nat then _ else _] => destruct (a =? b)%nat eqn:? end;
        repeat match goal with H : (_ =? _)%nat = true |- _ => apply Nat.eqb_eq in H; subst end;
-       unfold P in *; cbn [procs] in *; try lia.
+       try lia.
   all: try (unfold busyfix, rstart_p, up_p, downT_p, downF_p; cbn;
             repeat match goal with |- context[if ?b then _ else _] => destruct b eqn:? end; cbn; try lia;
             match goal with |- context[st ?p] => destruct (st p); cbn; lia end).
   all: try (unfold send_up; destruct i; cbn; repeat match goal with |- context[if ?b then _ else _] => destruct b eqn:? end; cbn; lia).
+  all: unfold P; cbn [procs]; lia.
+Qed.
+
+Lemma msteps_monotone c c' : msteps c c' -> forall j, sent (P c j) <= sent (P c' j) /\ recv (P c j) <= recv (P c' j).
+Proof.
+  induction 1; intros j; [lia|]. destruct (mstep_monotone _ _ H j). destruct (IHmsteps j). lia.
+Qed.
+Theorem counters_monotone c a j : sent (P c j) <= sent (P (step c a) j) /\ recv (P c j) <= recv (P (step c a) j).
+Proof. apply msteps_monotone. apply step_msteps. Qed.
+
+Theorem tree_wf N : (forall k, (0 < k < N)%nat -> (parent k < k)%nat /\ In k (children N (parent k))) /\
+  (forall i k, In k (children N i) -> parent k = i /\ (0 < k < N)%nat /\ (i < k)%nat) /\
+  (forall i, NoDup (children N i)).
+Proof.
+  split; [|split].
+  - intros k Hk. split; [apply parent_lt; lia|apply ch_spec; lia].
+  - intros i k Hk. apply ch_spec in Hk. pose proof (parent_lt k). lia.
+  - apply ch_nodup.
+Qed.
+
+(* ---- global quiescence is stable ---- *)
+Lemma quiet_mstep c c' g : Inv c g -> (forall j, (j < NP c)%nat -> quietw (P c j)) -> mstep c c' ->
+  forall j, (j < NP c)%nat -> quietw (P c' j).
+Proof.
+  intros HI Hq Hm j Hj.
+  assert (Hst : forall i, (i < NP c)%nat -> (st (P c i) = IWC \/ st (P c i) = IWP \/ st (P c i) = TERM) /\ infl (P c i) = 0 /\ inproc (P c i) = 0).
+  { intros i Hi. destruct (Hq i Hi) as (Hb & Hf & Hp). split; auto. apply quietw_cls. split; auto. }
+  destruct Hm.
+  - exfalso. destruct (Hst i H) as ([X|[X|X]] & _); congruence.
+  - exfalso. destruct (Hst i H) as (X & _ & Y). unfold may_load, busy_or_nr in H0. rewrite Y in H0. destruct X as [X|[X|X]]; rewrite X in H0; discriminate.
+  - exfalso. destruct (Hst i H) as (X & _ & Y). unfold may_load, busy_or_nr in H0. rewrite Y in H0. destruct X as [X|[X|X]]; rewrite X in H0; discriminate.
+  - exfalso. destruct (Hst i H) as ([X|[X|X]] & _); destruct H1; congruence.
+  - (* contrib *)
+    rewrite P_lset by (unfold NP in *; auto). destruct (j =? i)%nat eqn:E; [|apply Hq; auto].
+    destruct (Hq i H) as (Hb & Hf & Hp). unfold quietw, send_up, busy_or_nr in *.
+    destruct i; cbn; repeat match goal with |- context[if ?b then _ else _] => destruct b eqn:? end; cbn; rewrite ?H1; auto.
+  - exfalso. destruct (Hst i H) as (X & _). unfold is_busy in H2. destruct X as [X|[X|X]]; rewrite X in H2; discriminate.
+  - exfalso. destruct (Hst i H) as (_ & X & _). lia.
+  - exfalso. destruct (Hst i H) as (_ & _ & X). lia.
+  - apply Hq; auto.
+  - rewrite P_lset by (unfold NP in *; auto). destruct (j =? j0)%nat eqn:E; [|apply Hq; auto]. apply Nat.eqb_eq in E. subst j.
+    apply (Hq j0 Hj).
+  - rewrite P_lset by (unfold NP in *; auto). destruct (j =? j0)%nat eqn:E; [|apply Hq; auto]. apply Nat.eqb_eq in E. subst j.
+    destruct (Hq j0 Hj) as (Hb & Hf & Hp). unfold quietw, downT_p, busy_or_nr. cbn. auto.
+  - rewrite P_lset by (unfold NP in *; auto). destruct (j =? j0)%nat eqn:E; [|apply Hq; auto]. apply Nat.eqb_eq in E. subst j.
+    assert (Hin : In (s, j0, DOWN false) (pool c)) by (unfold pool; rewrite H; rewrite !in_app_iff; cbn; tauto).
+    pose proof (I_pkt _ _ HI _ Hin) as Hok. unfold pkt_ok, msg, src, dst in Hok. cbn [fst snd] in Hok. destruct Hok as (J0 & _ & _).
+    assert (1 <= dF c j0) by (unfold dF; apply (in_pool_cnt _ c _ Hin); unfold downFto, dst, msg; cbn; rewrite Nat.eqb_refl; auto).
+    destruct (edge_dF_inv c g j0 (I_edge _ _ HI j0 ltac:(lia)) H2) as (A & _).
+    destruct (Hq j0 Hj) as (Hb & Hf & Hp). unfold quietw, downF_p, busy_or_nr, cls in *. destruct (st (P c j0)); try lia; try discriminate; cbn; auto.
+Qed.
+
+Lemma quiet_msteps c c' : msteps c c' -> forall g, Inv c g -> (forall j, (j < NP c)%nat -> quietw (P c j)) ->
+  forall j, (j < NP c)%nat -> quietw (P c' j).
+Proof.
+  induction 1; intros g HI Hq; auto.
+  destruct (inv_mstep _ _ _ HI H) as [g1 H1]. pose proof (NP_mstep _ _ H) as HN.
+  intros j Hj. rewrite <- HN in Hj. apply (IHmsteps g1 H1); auto. intros k Hk. rewrite HN in Hk. apply (quiet_mstep c c1 g); auto.
 Qed.
